@@ -6,7 +6,9 @@ RULE = ("each case = one synthetic in-memory dataset (1-3 instruments, 1-12 / 13
         "parameterisations (passive, or a plan of 1-4 market orders triggered by the count of market events: first event, last event, colliding triggers, "
         "quantities beyond the balance) and 2-4 `run n w` ops: n in {1,2,8,32} backtests through the real barter::backtest::run_backtests / backtest on a tokio "
         "runtime with w in {0 = current-thread,1,4,8} workers, then every backtest again alone; a recording GlobalData + InstrumentDataState + OnDisconnectStrategy (one per-engine log) capture what each engine saw, markers included. "
-        "The committed corpus (corpus/C20/fills_lost.ops, corpus/C20/markers.ops: markers at the head / middle / tail, marker-only dataset) runs first; its 4000-event case makes the known finding show on practically every run "
+        "Every 4th case serves its dataset (3-12 Items + markers) through the harness's own BacktestMarketData whose stream sleeps 0 / 100 / 700 / 3000 ms of tokio time before every event "
+        "(total virtual duration 0 - 40 s) on a paused, auto-advancing current-thread runtime (`data_slow`); model and spec treat it as `data` (pacing = scheduling). "
+        "The committed corpus (corpus/C20/paced.ops, corpus/C20/fills_lost.ops, corpus/C20/markers.ops: markers at the head / middle / tail, marker-only dataset) runs first; its 4000-event case makes the known finding show on practically every run "
         "(alone on a current-thread runtime is always flat, 2 backtests on 4 workers see the first order's fill). A case is distinct by the SHA-1 of its op lines and non-trivial when the observation blocks differ")
 ASSUMPTIONS = [
     "MarketDataInMemory datasets of trade Items and Reconnecting markers with at least one Item (MarketDataInMemory::new panics otherwise; harness, model and spec all report `panic`); one mock exchange, zero fees, latency_ms = 0",
